@@ -1,4 +1,7 @@
-CONSTANT Cfgs = {"c1", "c2"}
+CONSTANT Cfgs = {"c1", "c2", "c5"}
+CONSTANT DefaultCfgs = {"c1", "c5"}
+CONSTANT RejectedCfgs = {"c5"}
+CONSTANT MutateArgs = FALSE
 CONSTANT Inputs = {"i1", "i2"}
 CONSTANT MaxEvaluators = 2
 CONSTANT MaxSteps = 4
@@ -8,5 +11,7 @@ SPECIFICATION Spec
 INVARIANT Deterministic
 INVARIANT NoCallRaises
 INVARIANT KeysAreBase
+INVARIANT ArgsAreNominal
+PROPERTY ArgsUntouched
 PROPERTY KeysStable
 CHECK_DEADLOCK FALSE
